@@ -172,11 +172,11 @@ func (h *simHub) send(c *simConn, data []byte, to net.Addr) {
 		return
 	}
 	delays := []int{0}
+	h.fateMu.Lock()
 	if h.fate != nil {
-		h.fateMu.Lock()
 		delays = h.fate(c.addr.String(), to.String(), nth, now, cp)
-		h.fateMu.Unlock()
 	}
+	h.fateMu.Unlock()
 	if len(delays) == 0 {
 		h.nDropped.Add(1)
 		if h.onDrop != nil {
@@ -303,3 +303,9 @@ func (c *simConn) LocalAddr() net.Addr                { return c.addr }
 func (c *simConn) SetDeadline(t time.Time) error      { return nil }
 func (c *simConn) SetReadDeadline(t time.Time) error  { return nil }
 func (c *simConn) SetWriteDeadline(t time.Time) error { return nil }
+
+func (h *simHub) setFate(f netFate) {
+	h.fateMu.Lock()
+	h.fate = f
+	h.fateMu.Unlock()
+}
